@@ -10,7 +10,7 @@ for d in sorted(glob.glob('/verif/seeded/S*'), key=lambda d: int(re.match(r'.*/S
 tgt_first = sum(1 for r in rows if r[1] in r[3] and not any(w in r[5][r[1]] for w in ('at first', 'first run')))
 tgt_now = sum(1 for r in rows if r[1] in r[3])
 anyc = sum(1 for r in rows if r[3])
-out = ["**(a) %d changes seeded by independent sub-agents** (nine waves; each agent saw only the text of one" % len(rows),
+out = ["**(a) %d changes seeded by independent sub-agents** (ten waves; each agent saw only the text of one" % len(rows),
  "property and a scratch worktree, nothing of /verif; the third wave was asked for the subtlest defects it",
  "could find, needing three or more conditions at once). Each change compiles, passes the repository's",
  "suite, comes with a demonstration that fails with it and passes without it; all were re-confirmed in",
